@@ -1408,12 +1408,46 @@ def ttf_preimages(cfg) -> Dict[int, set]:
     return pre
 
 
-def run_ttf(ctx: C.Ctx) -> None:
+def impl_ttf_line(data: bytes) -> str:
     from pdfminer.pdffont import TrueTypeFont
+    um, e = call(lambda: TrueTypeFont("F", io.BytesIO(data)).create_unicode_map())
+    if e is not None:
+        return exc_line(e)
+    return map_line({k: [ord(ch) for ch in v] for k, v in um.cid2unichr.items()})
+
+
+def run_ttf(ctx: C.Ctx) -> None:
     rng = ctx.rng
-    for _ in range(ctx.n(150, 5000)):
+    b = Batch(ctx)
+    for i in range(ctx.n(150, 5000)):
         cfg = gen_ttf(rng)
         check_ttf(ctx, cfg)
+        data = ttf_bytes(cfg)
+        b.tie("ttf.model", "ttf " + data.hex(), impl_ttf_line(data), {"group": "ttf", "ttf": cfg})
+        # damaged files: truncation, flipped bytes, unknown format (tie only; error kinds must agree)
+        for _ in range(2):
+            d = bytearray(data)
+            r = rng.random()
+            if r < 0.4:
+                d = d[:rng.randint(0, len(d))]
+            elif r < 0.8:
+                for _ in range(rng.randint(1, 3)):
+                    d[rng.randrange(len(d))] = rng.choice([0, 1, 2, 4, 6, 0xFF, rng.randrange(256)])
+            else:
+                d += bytes(rng.randrange(256) for _ in range(rng.randint(1, 8)))
+            d = bytes(d)
+            import time as _t
+            t0 = _t.time()
+            out = impl_ttf_line(d)
+            if _t.time() - t0 > 0.03 or len(out) > 40000:
+                # a damaged segment spanning tens of thousands of characters: the list-based model is quadratic
+                # there, so such files are left to the implementation-only checks
+                ctx.branch("ttfwild:skipped-large")
+                continue
+            b.tie("ttf.model", "ttf " + C.hx(d), out, {"group": "ttf.wild", "data": d.hex()})
+            ctx.case(("ttfw", d), not out.startswith("E "),
+                     branch="ttfwild:" + (out.split(" ")[1] if out.startswith("E ") else "map"))
+    b.flush()
 
 
 def check_ttf(ctx: C.Ctx, cfg) -> None:
